@@ -11,14 +11,15 @@ Record Arith (F : Type) := mkArith {
   fltb : F -> F -> bool; fleb : F -> F -> bool; feqb : F -> F -> bool;
   fpow : F -> F -> F; fexp : F -> F; flog : F -> F; fcos : F -> F; fsqrt : F -> F;
   ftrunc : F -> Z;              (* C cast (int)x : truncation toward zero *)
-  fisnan : F -> bool
+  fisnan : F -> bool;
+  ffinite : F -> bool
 }.
 
 Arguments f0 {F}. Arguments f1 {F}. Arguments fadd {F}. Arguments fsub {F}. Arguments fmul {F}.
 Arguments fdiv {F}. Arguments fneg {F}. Arguments fabs {F}. Arguments fofZ {F}.
 Arguments fltb {F}. Arguments fleb {F}. Arguments feqb {F}. Arguments fpow {F}.
 Arguments fexp {F}. Arguments flog {F}. Arguments fcos {F}. Arguments fsqrt {F}.
-Arguments ftrunc {F}. Arguments fisnan {F}.
+Arguments ftrunc {F}. Arguments fisnan {F}. Arguments ffinite {F}.
 
 (* ---------------- reals ---------------- *)
 Definition Rltb (x y : R) : bool := if Rlt_dec x y then true else false.
@@ -33,7 +34,7 @@ Definition rpow (x y : R) : R :=
 
 Definition ArithR : Arith R :=
   mkArith R 0%R 1%R Rplus Rminus Rmult Rdiv Ropp Rabs IZR Rltb Rleb Reqb rpow exp ln cos sqrt Rtrunc
-          (fun _ => false).
+          (fun _ => false) (fun _ => true).
 
 Lemma Rltb_true x y : Rltb x y = true <-> (x < y)%R.
 Proof. unfold Rltb; destruct (Rlt_dec x y); split; intros; auto; discriminate. Qed.
@@ -62,7 +63,7 @@ Definition ArithQ : Arith Q :=
           (fun x y => Qred (x / y)) (fun x => Qred (- x)) (fun x => Qred (Qabs.Qabs x))
           (fun z => inject_Z z) Qltb Qle_bool Qeq_bool Qpowq
           (fun _ => Qpoison) (fun _ => Qpoison) (fun _ => Qpoison) (fun _ => Qpoison) Qtrunc
-          (fun _ => false).
+          (fun _ => false) (fun _ => true).
 
 (* ---------------- small vector helpers shared by all models ---------------- *)
 Section Vec.
